@@ -1,3 +1,4 @@
+import Netconan.Proofs.NetPins
 import Netconan.Proofs.IpInt
 /-!
 # C04 – Preserved prefixes and preserved host bits survive anonymization
@@ -38,5 +39,16 @@ theorem model_inside_iff (hL : 0 < L) (p : Bits) (hp : p ∈ pins) (n : Nat) (hn
 /-- non-vacuity: prefix 10/2 preserved at width 4 -/
 example : ([true, false] <+: Ffull (fun p => p.length % 2 == 0) [[true, false]] 4 1 [true, false, true, true]) := by decide
 example : ¬ ([true, false] <+: Ffull (fun p => p.length % 2 == 0) [[true, false]] 4 1 [false, true, true, false]) := by decide
+
+open NoSurvival IpText in
+/-- **Text level**: the address written for an anonymized dotted quad lies inside a preserved prefix exactly when
+the token's address does, and keeps the token's trailing `B` host bits. -/
+theorem text_level_prefixes_and_host_bits (c : IpCfg) (hf : c.fam6 = false) (t : List Char) (ht : Lang core4 t) :
+    ∃ n, parseV4 t = .ok n ∧ n < 2 ^ 32 ∧
+      (Mask.shouldAnonymize c.nets n = true →
+        ∃ m, m < 2 ^ 32 ∧ anonMatch c false t = showV4 m ∧
+          (∀ p ∈ c.pins, p <+: toBitsW 32 m ↔ p <+: toBitsW 32 n) ∧
+          (toBitsW 32 m).drop (32 - c.B) = (toBitsW 32 n).drop (32 - c.B)) :=
+  replaced_token_keeps_prefixes c hf t ht
 
 end Netconan.Props.C04
